@@ -118,6 +118,26 @@ ResizeLeaf(e, Bt, v, n) ==
          LET fill == IF Len(v) > 0 THEN v[1] ELSE FirstAdmitted(e, Bt.e)
          IN [j \in 1..n |-> IF j <= Len(v) THEN v[j] ELSE fill]
 
+\* a value of T with a node at type position tp (first list element; every other component
+\* takes its first admitted boundary value, OPTIONAL members present) -- so that every
+\* constrained position of the type is reached by some value of the table whatever caps
+\* TypeGen!Values applies
+RECURSIVE ReachValue(_, _, _)
+ReachValue(e, T, tp) ==
+  IF tp = <<>> THEN FirstAdmitted(e, T)
+  ELSE LET Bt == Base(e, T) IN
+       CASE Bt.k \in {"SEQ", "SET"} ->
+              LET ms == AllMembers(Bt)
+              IN [nm \in {ms[j].n : j \in 1..Len(ms)} |->
+                    LET m == ms[MemberIndex(ms, nm)]
+                    IN IF nm = tp[1] THEN Present(ReachValue(e, m.t, Tail(tp))) ELSE Present(FirstAdmitted(e, m.t))]
+         [] Bt.k = "CHOICE" ->
+              [a |-> tp[1], v |-> ReachValue(e, AllAlts(Bt)[MemberIndex(AllAlts(Bt), tp[1])].t, Tail(tp))]
+         [] Bt.k \in {"SEQOF", "SETOF"} ->
+              LET scs == SelectSeq(SizeCons(e, T), LAMBDA c : c.f = "R" /\ ~c.ext)
+                  n == FoldLeft(LAMBDA acc, c : Max2(acc, c.lb), 1, scs)
+              IN [j \in 1..n |-> IF j = 1 THEN ReachValue(e, Bt.e, Tail(tp)) ELSE FirstAdmitted(e, Bt.e)]
+
 RECURSIVE Variants(_, _, _)
 \* sequence of [v : the value with one component replaced, pos : its position, nb : which neighbour]
 Variants(e, T, v) ==
@@ -210,7 +230,12 @@ MaxVariants == 160
 ConEnv == [tagdef |-> gEnv.tagdef, extimp |-> gEnv.extimp,
            types |-> [x \in DOMAIN gEnv.types \cup {"Top"} |-> IF x = "Top" THEN gT ELSE gEnv.types[x]]]
 
-ConBase == LET vs == Values(gEnv, gT, 3) IN SubSeq(vs, 1, Min2(Len(vs), MaxBase))
+\* TypeGen's boundary values (capped) and one value reaching every constrained position
+ConBase ==
+  LET vs == Values(gEnv, gT, 3)
+      sites == BoundSites(ConEnv, gT, <<>>, 2)
+      tps == FoldLeft(LAMBDA acc, st : IF \E j \in 1..Len(acc) : acc[j] = st.tp THEN acc ELSE Append(acc, st.tp), <<>>, sites)
+  IN SubSeq(vs, 1, Min2(Len(vs), MaxBase)) \o [j \in 1..Len(tps) |-> ReachValue(ConEnv, gT, tps[j])]
 
 ConVariantsOf(base) ==
   LET all == Concat([i \in 1..Len(base) |->
